@@ -39,6 +39,14 @@ if mode == "neutral2":
   - in pdu.py: a `_stripFixedHeader` helper, `_serialize`, `_frame`/`_seal`, divmod-based encode16Int, shift-counter decodeLength.
 Ideas in other directions (only where they are provably equivalent): move logic between the state classes and the protocol class (e.g. a state method doing part of the work itself, or the protocol asking `self.state` a question), replace if/elif chains on constants by small lookup tables or the reverse, replace boolean flags by sentinel values or the reverse, use `else` clauses of loops, `enumerate`/`zip`/`reversed(list(..))` where order is provably unaffected, `functools.partial` or lambdas for timer callbacks, class-level constants for magic numbers, properties or small private accessor methods for repeated attribute chains, conditional expressions, tuple unpacking, chained comparisons, `any()`/`all()`, list/dict comprehensions, context-free reordering of guard clauses, splitting a long method into phases, inlining a trivial helper, changing which of two equivalent fields is consulted (e.g. `request.msgId` vs `response.msgId` where provably equal), etc.
 """
+if mode == "neutral3":
+    mode = "neutral"
+    EXTRA = """IMPORTANT - be original: two earlier rounds of refactorings of this library already used the following reshapes, so do NOT make them the core of yours (they may appear incidentally); look for DIFFERENT, equally legitimate ways a maintainer might restructure the code:
+  - merged alarm-cancelling loops, `.items()`/`.values()`/`.pop()` swaps, `_failWindow`/`_disarm` helpers; try/except KeyError <-> `in` test <-> `dict.get`; closures <-> bound methods; handleCONNACK split into helpers; `while a and b` <-> `while a: if not b: break`; local aliases and @property accessors for `self.factory.windowX[self.addr]`; `_transmit`/`_send`/`_makeRelease` helpers; merged `_retrySubscribe`/`_retryUnsubscribe`;
+  - in pdu.py: base classes / template methods (`_body()`, `_parse()`), class constants for the first byte, `_stripFixedHeader`, divmod-based encode16Int, shift-counter or digit-list decodeLength, comprehensions building the payload, tuple assignments;
+  - the state machine built from a class-level STATES tuple, mixin state classes, REFUSALS tables; dispatch tables keyed by QoS; sentinel objects; work lists of (method, request) pairs; generators and itertools.chain over the windows; a collected set of identifiers in use; a priming-read framing loop with a `_frameSize()` helper; `iter(f, None)`.
+Ideas in other directions (only where provably equivalent): reorganise *where* a decision is taken (e.g. compute a flag once and pass it down, or push a test into the callee); replace a loop by recursion-free helper calls per registry or the reverse; use `dataclass`-free small named tuples for constant tables; early `continue` instead of nested ifs; `next(iter(...), None)`; `dict.setdefault` / `collections.OrderedDict` only where order is provably unaffected; splitting `doConnect`/`connectionLost`/`buildProtocol`/`makeId` into phases with differently shaped guards; renaming private attributes consistently; swapping which of two provably equal values is used; hoisting or sinking statements across independent statements; turning boolean expressions around (De Morgan, comparison flipped with operands swapped); replacing `len(x) > 0` style tests by truthiness where provably equivalent; integer arithmetic rewritten (`% 65536` <-> `& 0xFFFF`, `x or 1`, `max(x, 1)` only where equal).
+"""
 if mode == "break":
     used = []
     for f in sorted(glob.glob("/verif/seeded/%s-*/meta.json" % pid)):
